@@ -587,7 +587,12 @@ def run(ctx):
     samples = []
     distinct = set()
 
+    listed = set(e["id"] for e in ctx.kf)
+
     def kf(kid, what):
+        if kid not in listed:       # not (or no longer) in known_findings.json: an ordinary violation
+            ctx.violation(what, {"mechanism_class": kid, "detail": what}, key="unlisted-" + kid)
+            return
         st["kf_instances"][kid] = st["kf_instances"].get(kid, 0) + 1
         ctx.known_finding(kid, what)
 
